@@ -108,7 +108,7 @@ class SocketWrapper:
             data = self.read(1)
             if len(data) == 1:
                 line += data
-                if line[-2:] == b"\r\n":
+                if line[-1:] == b"\n":  # LF, as for file-like readline()
                     break
             else:
                 break
